@@ -2,6 +2,8 @@
    Only statements; every proof is `exact <lemma>`. *)
 From TenpyV Require Import Base.Prelude Model.Heap Proofs.HeapP Proofs.HeapP2 Model.LegFormats Proofs.LegFormatsP.
 From TenpyV Require Import Model.StateSpec Gen.G_states Proofs.StatesP.
+From TenpyV Require Model.Leg Model.Pipe.
+From TenpyV Require Import Model.PipeReinit Proofs.PipeReinitP.
 From Coq Require Import String.
 Close Scope Z_scope.
 Open Scope nat_scope.
@@ -70,6 +72,50 @@ Theorem T17_legcharge_formats :
      block_number (from_flat srt bun (to_flat l)) = List.length (to_qflat l)).
 Proof. exact (conj compact_roundtrip (conj blocks_roundtrip flat_roundtrip)). Qed.
 
+(* LegPipe through HDF5 (formats blocks/compact).  save_hdf5 stores the incoming legs, qconj and the cached attributes
+   `sorted`/`bunched` (pipe_save); from_hdf5 re-initialises, `cls(legs, qconj, sorted, bunched)` (pipe_load), i.e. re-runs
+   the construction Model/Pipe.v:pipe_init - the correspondence-checked model of C06 (LegPipe.__init__/_init_from_legs,
+   all four sort/bunch combinations).  For EVERY constructor call a = (chinfo, legs, qconj, sort, bunch), any number of
+   legs/blocks/charges: the re-initialised object EQUALS the constructed one - legs, qconj, charges, slices, q_map,
+   q_map_slices, the block tuples in processing order and the flags sorted/bunched (spelled out as projections) - and
+   saving it again gives the same saved fields.  This needs: the saved flag sorted = sort or (qnumber == 0) as `sort`
+   argument gives the same pipe; for single-block legs (the fast path of __init__, which sets sorted = bunched = True)
+   the pipe does not depend on sort/bunch.
+   Model/PipeReinit.v is new and NOT executed against the code: attr_sorted/attr_bunched (which flags __init__ caches)
+   and the argument order of from_hdf5 are hand-written from charges.py; the tie to the code is that pipe_load runs
+   the C06 model pipe_init.  That from_hdf5 reads exactly legs, qconj, sorted, bunched and that save_hdf5 writes them
+   (formats blocks/compact) is the LegPipe entry of the regenerated hdf5_table of T17_state_orders; the ORDER in which
+   from_hdf5 passes the two flags is not in that table: it is covered by the harness only (deep comparison of every
+   loaded LegPipe with the saved one), T17_legpipe_reinit_swap_differs shows on the model that the order matters. *)
+Theorem T17_legpipe_reinit : forall a : pipe_args,
+  let o := pipe_construct a in
+  let o' := pipe_load (pipe_save a) in
+  o' = o /\
+  (Pipe.p_legs (po_pipe o') = a_legs a /\ Pipe.p_qconj (po_pipe o') = a_qconj a /\
+   po_charges o' = po_charges o /\ po_slices o' = po_slices o /\ po_qmap o' = po_qmap o /\
+   po_qmap_slices o' = po_qmap_slices o /\ po_sorted o' = po_sorted o /\ po_bunched o' = po_bunched o) /\
+  pipe_save (mkPipeArgs (s_chinfo (pipe_save a)) (s_legs (pipe_save a)) (s_qconj (pipe_save a))
+                        (s_sorted (pipe_save a)) (s_bunched (pipe_save a))) = pipe_save a.
+Proof. exact pipe_reinit. Qed.
+
+(* the saved fields determine the pipe: two constructor calls that save the same fields build equal pipes *)
+Theorem T17_legpipe_saved_determines : forall a a', pipe_save a = pipe_save a' -> pipe_construct a = pipe_construct a'.
+Proof. exact pipe_reinit_determined. Qed.
+
+(* passing the two flags in the wrong order, cls(legs, qconj, bunched, sorted) (pipe_load_swapped), is invisible when
+   they are equal (pipe_swap_equal) but NOT in general: for the U(1) pipe reinit_ex (2 x 3 incoming blocks, built with
+   sort=True, bunch=False) the saved flags are sorted=True, bunched=False and the swapped re-initialisation has other
+   charges, slices, q_map and q_map_slices than the saved pipe, while the correct one reproduces it *)
+Theorem T17_legpipe_reinit_swap_differs : exists a,
+  let s := pipe_save a in
+  s_sorted s = true /\ s_bunched s = false /\
+  po_charges (pipe_load_swapped s) <> po_charges (pipe_load s) /\
+  po_slices (pipe_load_swapped s) <> po_slices (pipe_load s) /\
+  po_qmap (pipe_load_swapped s) <> po_qmap (pipe_load s) /\
+  po_qmap_slices (pipe_load_swapped s) <> po_qmap_slices (pipe_load s) /\
+  pipe_load s = pipe_construct a.
+Proof. exact pipe_reinit_swap_differs. Qed.
+
 (* tie T: the tables regenerated from charges.py / np_conserved.py *)
 Theorem T17_state_orders :
   (forall c produced consumed, In (c, produced, consumed) state_table -> produced = consumed) /\
@@ -136,6 +182,25 @@ Example T17_example_leg :
   to_qflat l = [[1; 0]; [1; 0]; [-1; 1]; [0; 0]; [0; 0]]%Z.
 Proof. split; [split; [reflexivity|discriminate]|split; vm_compute; reflexivity]. Qed.
 
+(* LegPipe re-initialisation, concrete: the U(1) pipe reinit_ex saved with sorted=True, bunched=False (q_map rows
+   [b_j, b_{j+1}, I_s, i_1, i_2]); legs with one block each built with sort=bunch=False are saved with both flags True
+   (fast path); without charges sort=False is saved as sorted=True *)
+Example T17_example_legpipe :
+  let s := pipe_save reinit_ex in
+  (s_sorted s, s_bunched s) = (true, false) /\
+  po_charges (pipe_load s) = [[0]; [0]; [1]; [1]; [1]; [2]]%Z /\
+  po_charges (pipe_load_swapped s) = [[1]; [2]; [0]; [1]]%Z /\
+  po_slices (pipe_load s) = [0; 2; 4; 5; 6; 10; 12]%Z /\
+  po_qmap (pipe_load s) = [[0; 2; 0; 1; 0]; [0; 2; 1; 1; 1]; [0; 1; 2; 0; 0]; [0; 1; 3; 0; 1]; [0; 4; 4; 1; 2]; [0; 2; 5; 0; 2]]%Z /\
+  po_qmap (pipe_load_swapped s) = [[0; 1; 0; 0; 0]; [1; 2; 0; 0; 1]; [0; 2; 1; 0; 2]; [0; 2; 2; 1; 0]; [2; 4; 2; 1; 1]; [0; 4; 3; 1; 2]]%Z /\
+  po_qmap_slices (pipe_load s) = [0; 1; 2; 3; 4; 5; 6]%Z /\ po_qmap_slices (pipe_load_swapped s) = [0; 2; 3; 5; 6]%Z /\
+  (a_sort reinit_ex_single, a_bunch reinit_ex_single) = (false, false) /\
+  (s_sorted (pipe_save reinit_ex_single), s_bunched (pipe_save reinit_ex_single)) = (true, true) /\
+  po_qmap (pipe_load (pipe_save reinit_ex_single)) = [[0; 6; 0; 0; 0]]%Z /\
+  a_sort reinit_ex_q0 = false /\ s_sorted (pipe_save reinit_ex_q0) = true /\
+  po_qmap (pipe_load (pipe_save reinit_ex_q0)) = [[0; 6; 0; 0; 0]; [6; 9; 0; 1; 0]]%Z.
+Proof. vm_compute. repeat split. Qed.
+
 Print Assumptions T17_copy_iso.
 Print Assumptions T17_roundtrip_iso.
 Print Assumptions T17_identity_preserved.
@@ -147,3 +212,6 @@ Print Assumptions T17_roundtrip_total_flat_tuples.
 Print Assumptions T17_legcharge_formats.
 Print Assumptions T17_state_orders.
 Print Assumptions T17_state_classes_present.
+Print Assumptions T17_legpipe_reinit.
+Print Assumptions T17_legpipe_saved_determines.
+Print Assumptions T17_legpipe_reinit_swap_differs.
